@@ -148,8 +148,10 @@ def rule_DA(FA):
                         for sk, atoms, val, where, g in r_guard.conditions_for_entry(FA, twin, tspec):
                             A += [map_atom(a, lambda t_: r_guard._replace_params(t_, twin, f)) for a in atoms if a[0] in ('<', '<=', '==', '!=')]
             # every quad-symbol parameter (u8) of a quad structure has the trait-level contract `<= 3`
+            # (not the builder: push / extend are documented to keep the two low bits of ANY value)
+            total = 'QVectorBuilder' in f['path'] or f['name'] in ('push', 'extend', 'from_iter')
             for k in range(1, f['argc']):
-                if f['locals'][k + 1] == 'u8' and ('qvector' in f['path']):
+                if f['locals'][k + 1] == 'u8' and ('qvector' in f['path']) and not total:
                     A.append(('<=', r_guard.param_term(f, k), ('const', 3)))
             Ac = [canon_a(a) for a in A]
             for bi, asserted, line, macro in das:
@@ -175,6 +177,10 @@ def rule_DA(FA):
                                         'debug assertion `%s` constrains an argument beyond the documented precondition {%s}: some valid '
                                         'calls panic only in builds with debug assertions' % (fmt_atom(dc), '; '.join(fmt_atom(a) for a in Ac) or 'none'), props,
                                         sample={'assertion': fmt_atom(dc), 'precondition': [fmt_atom(a) for a in Ac][:6]}))
+                    elif ment and total and not f['unsafe'] and (f['exported'] or f['pub']) and all(x[:1] in (('param',), ('const',)) or x in ment for x in (dc[1], dc[2])):
+                        out.append(Inst('R-DA', key, 'violation', line,
+                                        'debug assertion `%s` on an argument of `%s`, which is documented to accept every value (it keeps the two low bits): such values panic in builds with debug assertions only' % (
+                                            fmt_atom(dc), f['name']), props + ['C13']))
                     else:
                         out.append(Inst('R-DA', key, 'note', line, 'internal sanity assertion (no documented precondition to compare with)',
                                         props, nontrivial=False))
